@@ -156,3 +156,14 @@ def graphql_enum_default_argument(job, failure) -> bool:
     wit = failure.get("witness") or {}
     log = failure.get("extra", {}).get("log")
     return isinstance(wit, dict) and "color" not in wit and "Color." not in str(log) and "'find'" in str(log)
+
+
+def per_call_validators_ignored_on_objects(job, failure) -> bool:
+    """C01: validators= passed to deserialize() for an object type never run"""
+    if not job.get("opts", {}).get("call_validators") or failure.get("kind") != "accepts-nonconforming":
+        return False
+    from vf import pools
+
+    spec, _ = pools.get(job["pool"], job["pid"])
+    ref = failure.get("extra", {}).get("ref_errors")
+    return spec.k == "obj" and "validator" in str(ref) and len(ref) == 1
